@@ -46,7 +46,7 @@ def toy_run(model, codes, s0, raise_mod, nsoil3=True):
 
     err = None
     try:
-        forcIP.temp = list(codes) + saved_temp[len(codes):] if len(codes) < len(saved_temp) else list(codes)
+        forcIP.temp = (list(codes) + saved_temp[len(codes):])[:len(saved_temp)]
         U.SolarCalcs, U.urbflux, U.psychrometrics = _Solar, _urbflux, _psy
         model.UCM.UCModel = _toy
         for o, name in inst[1:]:
